@@ -150,6 +150,8 @@ func (p *Prog) inlineOverlay() (map[string][]byte, []string) {
 			continue
 		}
 		unhoistConds(file)
+		p.liftFreshChanFields(file)
+		lowerTimeoutCtxWaits(file)
 		var buf bytes.Buffer
 		if err := format.Node(&buf, fset, file); err != nil {
 			continue
@@ -666,6 +668,7 @@ direct:
 		}
 		return true
 	})
+	bindFail := false
 	addBind := func(nm *ast.Ident, arg ast.Expr) {
 		if nm == nil || nm.Name == "_" {
 			if !isPureExpr(arg) {
@@ -678,11 +681,37 @@ direct:
 			return
 		}
 		used := usesObj(cinfo, callee.Body, obj, true)
+		if id, isID := ast.Unparen(arg).(*ast.Ident); isID && id.Name == "nil" {
+			// an untyped nil argument: substituting it would give `nil != nil`; the
+			// parameter becomes a typed local holding its zero value
+			ts := p.typeText(j.caller, obj.Type())
+			te, err := parser.ParseExpr(ts)
+			if ts == "" || err != nil {
+				bindFail = true
+				return
+			}
+			name := nm.Name + suffix
+			pre = append(pre, &ast.DeclStmt{Decl: &ast.GenDecl{Tok: token.VAR, Specs: []ast.Spec{&ast.ValueSpec{Names: []*ast.Ident{ast.NewIdent(name)}, Type: te}}}})
+			pre = append(pre, &ast.AssignStmt{Lhs: []ast.Expr{ast.NewIdent("_")}, Tok: token.ASSIGN, Rhs: []ast.Expr{ast.NewIdent(name)}})
+			binds = append(binds, bind{obj, nil, name})
+			return
+		}
 		if isPureExpr(arg) && !assignedParams[obj] {
 			binds = append(binds, bind{obj, arg, ""})
 			return
 		}
 		name := nm.Name + suffix
+		if _, isLit := ast.Unparen(arg).(*ast.BasicLit); isLit && used {
+			// an untyped constant bound to a parameter of a named type: `p := ""`
+			// would make it a string, not a Protocol
+			if ts := p.typeText(j.caller, obj.Type()); ts != "" {
+				if te, err := parser.ParseExpr(ts); err == nil {
+					pre = append(pre, &ast.DeclStmt{Decl: &ast.GenDecl{Tok: token.VAR, Specs: []ast.Spec{&ast.ValueSpec{Names: []*ast.Ident{ast.NewIdent(name)}, Type: te, Values: []ast.Expr{arg}}}}})
+					binds = append(binds, bind{obj, nil, name})
+					return
+				}
+			}
+		}
 		if used {
 			pre = append(pre, &ast.AssignStmt{Lhs: []ast.Expr{ast.NewIdent(name)}, Tok: token.DEFINE, Rhs: []ast.Expr{arg}})
 		} else if !isPureExpr(arg) {
@@ -717,6 +746,10 @@ direct:
 			addBind(nm, call.Args[ai])
 			ai++
 		}
+	}
+	if bindFail {
+		inlineWhy = "the type of a parameter that receives an untyped nil cannot be written in the caller's file"
+		return false
 	}
 	// named results become locals
 	var resultNames []string
@@ -1542,4 +1575,332 @@ func (p *Prog) pureCtorCall(caller *Func, file *ast.File, x *ast.CallExpr) bool 
 		}
 	}
 	return false
+}
+
+// liftFreshChanFields gives the channel created inside a fresh message
+// literal a name of its own:
+//
+//	se := &sendErr{i: i, ch: make(chan error)}  ...  se.ch
+//
+// becomes `ch_l1 := make(chan error); se := &sendErr{i: i, ch: ch_l1} ... ch_l1`,
+// when se is defined once in the function and no statement anywhere in the
+// module assigns a field of that name (so se.ch denotes that channel for
+// good). The rules about reply channels (single local owner of a close, the
+// reviewed bare receive on the reply) are stated for a local channel; this is
+// the same program.
+func (p *Prog) liftFreshChanFields(file *ast.File) {
+	assignedField := func(name string) bool {
+		for _, pkg := range p.Pkgs {
+			for _, f := range pkg.Syntax {
+				found := false
+				ast.Inspect(f, func(n ast.Node) bool {
+					switch x := n.(type) {
+					case *ast.AssignStmt:
+						for _, l := range x.Lhs {
+							if se, ok := ast.Unparen(l).(*ast.SelectorExpr); ok && se.Sel.Name == name {
+								found = true
+							}
+						}
+					case *ast.UnaryExpr:
+						if se, ok := ast.Unparen(x.X).(*ast.SelectorExpr); ok && x.Op == token.AND && se.Sel.Name == name {
+							found = true
+						}
+					}
+					return !found
+				})
+				if found {
+					return true
+				}
+			}
+		}
+		return false
+	}
+	seq := 0
+	for _, d := range file.Decls {
+		fd, ok := d.(*ast.FuncDecl)
+		if !ok || fd.Body == nil {
+			continue
+		}
+		var rewrite func(list []ast.Stmt) []ast.Stmt
+		rewrite = func(list []ast.Stmt) []ast.Stmt {
+			for i := 0; i < len(list); i++ {
+				as, ok := list[i].(*ast.AssignStmt)
+				if !ok || as.Tok != token.DEFINE || len(as.Lhs) != 1 || len(as.Rhs) != 1 {
+					continue
+				}
+				v, ok := as.Lhs[0].(*ast.Ident)
+				if !ok || v.Name == "_" {
+					continue
+				}
+				r := ast.Unparen(as.Rhs[0])
+				if u, ok := r.(*ast.UnaryExpr); ok && u.Op == token.AND {
+					r = ast.Unparen(u.X)
+				}
+				cl, ok := r.(*ast.CompositeLit)
+				if !ok {
+					continue
+				}
+				for _, el := range cl.Elts {
+					kv, ok := el.(*ast.KeyValueExpr)
+					if !ok {
+						continue
+					}
+					key, ok := kv.Key.(*ast.Ident)
+					if !ok {
+						continue
+					}
+					mk, ok := ast.Unparen(kv.Value).(*ast.CallExpr)
+					if !ok || len(mk.Args) < 1 {
+						continue
+					}
+					if id, ok := mk.Fun.(*ast.Ident); !ok || id.Name != "make" {
+						continue
+					}
+					if _, isChan := mk.Args[0].(*ast.ChanType); !isChan {
+						continue
+					}
+					// v defined once in the function, v.key never assigned in the module
+					defs := 0
+					ast.Inspect(fd.Body, func(n ast.Node) bool {
+						if a2, ok := n.(*ast.AssignStmt); ok {
+							for _, l := range a2.Lhs {
+								if id, ok := l.(*ast.Ident); ok && id.Name == v.Name {
+									defs++
+								}
+							}
+						}
+						return true
+					})
+					if defs != 1 || assignedField(key.Name) {
+						continue
+					}
+					// only reply channels of messages: an unbuffered channel in a value
+					// that this function sends on a channel
+					sent := false
+					ast.Inspect(fd.Body, func(n ast.Node) bool {
+						if ss, ok := n.(*ast.SendStmt); ok {
+							if id, ok := ast.Unparen(ss.Value).(*ast.Ident); ok && id.Name == v.Name {
+								sent = true
+							}
+						}
+						return true
+					})
+					if len(mk.Args) != 1 || !sent {
+						continue
+					}
+					seq++
+					name := fmt.Sprintf("%s_l%d", key.Name, seq)
+					kv.Value = ast.NewIdent(name)
+					def := &ast.AssignStmt{Lhs: []ast.Expr{ast.NewIdent(name)}, Tok: token.DEFINE, Rhs: []ast.Expr{mk}}
+					// every v.key after the definition names the channel
+					for j := i + 1; j < len(list); j++ {
+						list[j] = astutil.Apply(list[j], func(c *astutil.Cursor) bool {
+							if se, ok := c.Node().(*ast.SelectorExpr); ok && se.Sel.Name == key.Name {
+								if id, ok := se.X.(*ast.Ident); ok && id.Name == v.Name {
+									c.Replace(ast.NewIdent(name))
+									return false
+								}
+							}
+							return true
+						}, nil).(ast.Stmt)
+					}
+					list = append(list[:i:i], append([]ast.Stmt{def}, list[i:]...)...)
+					i++
+				}
+			}
+			return list
+		}
+		ast.Inspect(fd.Body, func(n ast.Node) bool {
+			switch x := n.(type) {
+			case *ast.BlockStmt:
+				x.List = rewrite(x.List)
+			case *ast.CaseClause:
+				x.Body = rewrite(x.Body)
+			}
+			return true
+		})
+	}
+}
+
+// lowerTimeoutCtxWaits rewrites a wait on a context that exists only to bound
+// that wait into the select it stands for:
+//
+//	ctx, cancel := context.WithTimeout(P, D); defer cancel(); ...; <-ctx.Done()
+//
+// becomes `select { case <-P.Done(): case <-time.After(D): }` when ctx is used
+// nowhere else, every use of cancel is a call statement of its own (deferred,
+// or run explicitly at the exits of an inlined helper), and P and D are pure
+// expressions. Both forms return when P is done or D has elapsed, whichever
+// comes first; the waiting rules (class B: timer arm, cancellation arm) are
+// stated for the select.
+func lowerTimeoutCtxWaits(file *ast.File) {
+	hasTime := false
+	for _, im := range file.Imports {
+		if im.Path.Value == "\"time\"" && im.Name == nil {
+			hasTime = true
+		}
+	}
+	if !hasTime {
+		return
+	}
+	count := func(root ast.Node, name string) int {
+		n := 0
+		ast.Inspect(root, func(x ast.Node) bool {
+			if id, ok := x.(*ast.Ident); ok && id.Name == name {
+				n++
+			}
+			return true
+		})
+		return n
+	}
+	for _, d := range file.Decls {
+		fd, ok := d.(*ast.FuncDecl)
+		if !ok || fd.Body == nil {
+			continue
+		}
+		type job struct {
+			def    *ast.AssignStmt
+			wait   *ast.ExprStmt
+			cancel string
+			p, d   ast.Expr
+		}
+		var jobs []job
+		ast.Inspect(fd.Body, func(n ast.Node) bool {
+			as, ok := n.(*ast.AssignStmt)
+			if !ok || as.Tok != token.DEFINE || len(as.Lhs) != 2 || len(as.Rhs) != 1 {
+				return true
+			}
+			ctxID, ok1 := as.Lhs[0].(*ast.Ident)
+			cancelID, ok2 := as.Lhs[1].(*ast.Ident)
+			call, ok3 := ast.Unparen(as.Rhs[0]).(*ast.CallExpr)
+			if !ok1 || !ok2 || !ok3 || len(call.Args) != 2 || ctxID.Name == "_" {
+				return true
+			}
+			se, ok := call.Fun.(*ast.SelectorExpr)
+			if !ok || se.Sel.Name != "WithTimeout" {
+				return true
+			}
+			if pk, ok := se.X.(*ast.Ident); !ok || pk.Name != "context" {
+				return true
+			}
+			if !isPureExpr(call.Args[0]) || !isPureExpr(call.Args[1]) || count(fd.Body, ctxID.Name) != 2 {
+				return true
+			}
+			var wait *ast.ExprStmt
+			ast.Inspect(fd.Body, func(x ast.Node) bool {
+				es, ok := x.(*ast.ExprStmt)
+				if !ok {
+					return true
+				}
+				u, ok := ast.Unparen(es.X).(*ast.UnaryExpr)
+				if !ok || u.Op != token.ARROW {
+					return true
+				}
+				c2, ok := ast.Unparen(u.X).(*ast.CallExpr)
+				if !ok || len(c2.Args) != 0 {
+					return true
+				}
+				s2, ok := c2.Fun.(*ast.SelectorExpr)
+				if !ok || s2.Sel.Name != "Done" {
+					return true
+				}
+				if id, ok := s2.X.(*ast.Ident); ok && id.Name == ctxID.Name {
+					wait = es
+				}
+				return true
+			})
+			if wait == nil {
+				return true
+			}
+			if cancelID.Name != "_" {
+				nStmts := 0
+				ast.Inspect(fd.Body, func(x ast.Node) bool {
+					if x != nil && isBareCallStmt(x, cancelID.Name) {
+						nStmts++
+					}
+					return true
+				})
+				if nStmts == 0 || count(fd.Body, cancelID.Name) != 1+nStmts {
+					return true
+				}
+			}
+			// the timer must start where the wait is: the definition is followed
+			// directly by the wait (only the deferred cancel may stand between);
+			// anything else in between would run on the context's clock
+			adjacent := false
+			ast.Inspect(fd.Body, func(x ast.Node) bool {
+				var list []ast.Stmt
+				switch y := x.(type) {
+				case *ast.BlockStmt:
+					list = y.List
+				case *ast.CaseClause:
+					list = y.Body
+				case *ast.CommClause:
+					list = y.Body
+				}
+				for k, st := range list {
+					if st != ast.Stmt(as) {
+						continue
+					}
+					for m := k + 1; m < len(list); m++ {
+						if cancelID.Name != "_" && isBareCallStmt(list[m], cancelID.Name) {
+							continue
+						}
+						adjacent = list[m] == ast.Stmt(wait)
+						break
+					}
+				}
+				return true
+			})
+			if !adjacent {
+				return true
+			}
+			jobs = append(jobs, job{as, wait, cancelID.Name, call.Args[0], call.Args[1]})
+			return true
+		})
+		for _, j := range jobs {
+			jb := j
+			recv := func(e ast.Expr) ast.Stmt { return &ast.ExprStmt{X: &ast.UnaryExpr{Op: token.ARROW, X: e}} }
+			parentDone := &ast.CallExpr{Fun: &ast.SelectorExpr{X: jb.p, Sel: ast.NewIdent("Done")}}
+			after := &ast.CallExpr{Fun: &ast.SelectorExpr{X: ast.NewIdent("time"), Sel: ast.NewIdent("After")}, Args: []ast.Expr{jb.d}}
+			sel := &ast.SelectStmt{Body: &ast.BlockStmt{List: []ast.Stmt{
+				&ast.CommClause{Comm: recv(parentDone)},
+				&ast.CommClause{Comm: recv(after)},
+			}}}
+			astutil.Apply(fd.Body, func(c *astutil.Cursor) bool {
+				n := c.Node()
+				if n == nil {
+					return true
+				}
+				switch {
+				case n == ast.Node(jb.def) && c.Index() >= 0:
+					c.Delete()
+					return false
+				case n == ast.Node(jb.wait):
+					c.Replace(sel)
+					return false
+				case jb.cancel != "_" && isBareCallStmt(n, jb.cancel) && c.Index() >= 0:
+					c.Delete()
+					return false
+				}
+				return true
+			}, nil)
+		}
+	}
+}
+
+// isBareCallStmt: `name()` or `defer name()` as a statement.
+func isBareCallStmt(n ast.Node, name string) bool {
+	var c3 *ast.CallExpr
+	switch y := n.(type) {
+	case *ast.DeferStmt:
+		c3 = y.Call
+	case *ast.ExprStmt:
+		c3, _ = y.X.(*ast.CallExpr)
+	}
+	if c3 == nil || len(c3.Args) != 0 {
+		return false
+	}
+	id, ok := c3.Fun.(*ast.Ident)
+	return ok && id.Name == name
 }
